@@ -52,7 +52,7 @@ func main() {
 			"goroutines of Validate/healer run free (Go scheduler); the interleaving dimension proper is the E2 part of C06, so a schedule-dependent defect may be missed here by chance but is never reported falsely",
 			"file modes are not compared; damage bytes are seeded pseudo-random",
 		},
-		QuickBudget:    90 * time.Second,
+		QuickBudget:    120 * time.Second,
 		ThoroughBudget: 15 * time.Minute,
 	}, body)
 }
